@@ -182,6 +182,15 @@ Definition attr_rules (s : schema) (a : attr) : Prop :=
   (truthy (fget (a_facets a) f_required) = true -> a_default a = DNone) /\
   default_rules s a.
 
+(* the child graph: an element lists another element, which has a row of its own (no alias facet);
+   self recursion is not an edge *)
+Definition child_edge (s : schema) (a b : str) : Prop :=
+  exists e t c d l, element_named s a e /\ In (MChild b c d l) (e_members e) /\ b <> a /\
+                    element_named s b t /\ fhas (e_facets t) f_alias = false.
+Inductive child_path (s : schema) : str -> str -> Prop :=
+| cp_edge : forall a b, child_edge s a b -> child_path s a b
+| cp_step : forall a b c, child_edge s a b -> child_path s b c -> child_path s a c.
+
 (* the documented rules checked by _validate *)
 Definition schema_rules (s : schema) : Prop :=
   (* no dangling use, no use cycle *)
@@ -189,11 +198,13 @@ Definition schema_rules (s : schema) : Prop :=
   (forall n, ~ use_path s n n) /\
   Forall (group_rules s) (s_groups s) /\
   Forall (element_rules s) (s_elements s) /\
-  (forall ms a, In ms (containers s) -> In (MAttr a) ms -> attr_rules s a).
+  (forall ms a, In ms (containers s) -> In (MAttr a) ms -> attr_rules s a) /\
+  (* no child cycle through distinct elements that have a row of their own *)
+  (forall n, ~ child_path s n n).
 
 (* everything an accepted schema satisfies *)
 Definition WellFormed (s : schema) : Prop := schema_syn s /\ schema_rules s.
 
 (* first loop of _validate: the cycle check of every group, in declaration order *)
 Definition cycle_step (rl : nat) (groups : list group) : vres :=
-  vfor (fun g => check_cycle groups rl (g_name g) [] (g_line g)) groups.
+  vfor (fun g => check_cycle_rec groups rl (g_name g) [] (g_line g)) groups.
